@@ -7,23 +7,29 @@ PROP = {'engine': 'rc',
                   'step = one AtomicCounter operation on a reference count, one critical section of the pool\'s _mutex, the slab delete outside the lock, or one plain '
                   'local action',
                   'the cooperative scheduler harness/libvh/coop.h and the MUSCLE_VERIF_HOOKS hook sites (AtomicCounter, Mutex): the real threads are serialised at '
-                  'those points (plus the harness\'s own yield points at the start of every operation and inside `delete slabToDelete`)',
+                  'those points (plus the harness\'s own yield points at the start of every operation, inside `delete slabToDelete`, and - by '
+                  'interposing on pthread_mutex_unlock - right after ReleaseObject() has released the pool mutex)',
                   'std::atomic<int32> increments/decrements are atomic and std::recursive_mutex excludes (modelled, not verified)',
                   'the instrumented test class Obj (constructor/destructor/assignment counters, canary) of harness/rc.cpp'],
  'assumptions': ['sequentially consistent interleaving of the hooked steps (no weak-memory effects, no compiler reordering)',
                  'a Ref object itself is used by one thread at a time (hand-off between threads only through the global slots, one atomic step) - as the '
                  'documentation of Ref requires',
-                 'only reference-counting Refs (doRefCount=true); DummyRef / SetRef(item,false) / Neutralize() are not modelled',
+                 'a non-counting Ref (SetRef(p,false), copies of one, Neutralize) is never dereferenced and is promoted only while another slot of the same '
+                 'thread counts the same object (a dangling non-counting Ref is allowed by the documented semantics; dereferencing it is a user error)',
+                 'an object\'s own `next` reference is modified only by a thread that holds the ONLY reference to that object (IsRefPrivate), never made to '
+                 'point to the object itself: reference cycles (which reference counting cannot free) are excluded',
                  'counters below 2^32 (maxPool + objects-per-slab < 2^32), no allocation failure',
-                 'pooled objects hold no Refs of their own (no cascading release inside ReleaseObject)'],
+                 'AtomicCounter operations are single indivisible steps: a split inside AtomicIncrement/AtomicDecrement (e.g. `--_count; return GetCount()==0;`) '
+                 'is invisible at the hook granularity (the hook sits before the operation)'],
  'rule': 'one op line = pool parameters (objects per slab 1-4 chosen through the slab-size template parameter, maxPoolSize) + 1-4 thread programs over '
-         'new-heap/obtain/copy/SetRef/Reset/swap/hand-off/payload-write/const-cast + a schedule, executed on real threads against the real '
+         'new-heap/obtain/copy/SetRef/Reset/swap/hand-off/payload-write/const-cast/link/unlink/pop (objects hold a `next` Ref: linked lists, cascading release)/'
+         'non-counting alias/promote/demote/Neutralize + a schedule, executed on real threads against the real '
          'Ref/RefCountable/ObjectPool under the deterministic cooperative scheduler and on the Lean interleaving model; per step the observable events (object '
          'created, slab created, object handed out and its payload, object reset on release, heap object destroyed, slab destroyed) with first-seen identities and '
-         'the (identity, refcount, payload) triples of all live objects, at the end _curPoolSize and the in-use counts of the slab list must agree; schedules are '
-         'enumerated behind a set-up prefix up to 2 (quick) / 3 (thorough) preemptions per program (capped, fewest preemptions first) plus random event lists plus '
+         'the (identity, refcount, payload, next) tuples of all live objects, at the end _curPoolSize and the in-use counts of the slab list must agree; schedules are '
+         'enumerated behind a set-up prefix (shared object, linked list shared by its head, non-counting aliases, pool contention) up to 2 (quick) / 3 (thorough) preemptions per program (capped, fewest preemptions first) plus random event lists plus '
          'single-threaded histories; direct oracle: destroyed/recycled exactly once and only with count 0 and no visible reference, no Ref to a released object, '
-         'count = visible references when no operation is in progress, nothing leaks, an object handed out is in the default state and not handed out already, '
+         'count = visible references (counting slots + `next` members of live objects) when no operation is in progress, nothing leaks, an object handed out is in the default state and not handed out already, '
          'free lists acyclic and disjoint from handed-out nodes, _curPoolSize = free nodes, PerformSanityCheck() after every step; distinct = distinct case bodies'}
 
 TEXT = {'design_ref': 'DESIGN.md section 4, C10 (and 3.5 for the hooks and the cooperative scheduler)',
@@ -32,7 +38,10 @@ TEXT = {'design_ref': 'DESIGN.md section 4, C10 (and 3.5 for the hooks and the c
               'real threads against the real code under a deterministic cooperative scheduler (hooks in AtomicCounter/Mutex) and on the model',
  'text': 'Proved in Lean for every reachable configuration of the model (all programs, all schedules, all slab sizes >= 1 and pool limits): the reference count of '
          'every object equals the number of references to it (slots of all threads, global slots, pending decrements); an object with any reference is alive '
-         '(never released early); hand-outs = releases + (1 if alive), a heap object is released at most once, a released object has count 0 and no references; '
+         '(never released early), also when the reference is the `next` member of another live object (linked lists; the cascading release of a chain is '
+         'modelled step by step); assigning a Ref from the `next` reference held inside the object it points to (head = head()->next) keeps the successor alive '
+         '(assign_from_owned_ref_safe; old_order_counterexample shows the state the pre-3dba531 order of SetRef() reaches); non-counting Refs do not count, '
+         'promotion/demotion/Neutralize keep count = references; hand-outs = releases + (1 if alive), a heap object is released at most once, a released object has count 0 and no references; '
          'pool bookkeeping: every slab\'s free list is an acyclic duplicate-free chain of exactly the nodes not handed out, its length + nodes-in-use = slab size, '
          'slab identities distinct, _curPoolSize = free nodes of the listed slabs; the node ObtainObjectAux hands out is free, not alive, unreferenced, in the '
          'default state, and a handed-out raw pointer belongs to one thread only; a slab about to be deleted outside the lock has no node in use, is off the slab '
@@ -40,5 +49,7 @@ TEXT = {'design_ref': 'DESIGN.md section 4, C10 (and 3.5 for the hooks and the c
          'running both on the same programs and schedules (bounded-preemption exhaustive behind a set-up prefix + random + single-threaded) and by direct oracles '
          'on the real objects and pool.',
  'note': 'Sequential consistency of the hooked steps, counters < 2^32, no allocation failure; only reference-counting Refs; a Ref object is private to one thread '
-         '(hand-off through mailboxes).  Not proved: absence of leaks as a theorem (the harness checks it: alive but unreferenced / not everything released at the '
+         '(hand-off through mailboxes); next members are changed only through a private reference; non-counting Refs are never dereferenced.  Finding '
+         'C10-assign-from-owned-ref (fixed in /repo 3dba531) has its regression in corpus/C10/rc-regress-assign-from-owned-ref.ops.  Not visible at the hook '
+         'granularity: a split inside AtomicDecrement itself.  Not proved: absence of leaks as a theorem (the harness checks it: alive but unreferenced / not everything released at the '
          'end is an oracle failure).  Trusted: Lean kernel, statement file, scheduler + hooks, sampling correspondence.'}
